@@ -11,7 +11,7 @@ C05 / C10 line-protocol driver for the time model:
   dump                       print one line: events (times relative to start) `| end=<t> pend=<n>`
 
 Tokens: rationals `p/q` or integers; clocks `sys`, `app`, `t<i>`;
-acts `y d`, `hang`, `yinf` (= hang), `yv K` (= hang; a non-numeric value), `log`, `send b`, `spawn r clk`, `tempo i x`, `pause r`, `resume r`, `stop r`,
+acts `y d`, `hang`, `yinf` (= hang), `yv K` (= hang; a non-numeric value), `log`, `send b`, `spawn r clk`, `tempo i x`, `beats i b`, `pause r`, `resume r`, `stop r`,
 `wait c`, `sig c`, `seed n`, `draw`, `pull r`, `raise`, `etempo i x`.  Draw events print the SEED of the
 generator object read (`M` = the main thread's) and the index in its stream.
 -/
@@ -59,6 +59,7 @@ def parseAct (ws : List String) : Option Act :=
   | ["send", b] => do some (.send (← b.toNat?))
   | ["spawn", r, c] => do some (.spawn (← r.toNat?) (← parseClk c))
   | ["tempo", i, x] => do some (.setTempo (← i.toNat?) (← parseRat x))
+  | ["beats", i, b] => do some (.setBeats (← i.toNat?) (← parseRat b))
   | ["pause", r] => do some (.pause (← r.toNat?))
   | ["resume", r] => do some (.resume (← r.toNat?))
   | ["stop", r] => do some (.stop (← r.toNat?))
